@@ -283,6 +283,31 @@ def sym_bytes(prefix, n):
     return [bitform.bitform(T.sym('%s[%d]' % (prefix, i), 8)) for i in range(n)]
 
 
+import re
+_INTRINSIC = re.compile(r'^(_mm\d*_|_m_|v[a-z0-9]+q?_|fn:|call:|intrinsic)')
+_MIR_OPS = {'BitAnd', 'BitOr', 'BitXor', 'Not', 'Add', 'Sub', 'Mul', 'Shl', 'Shr', 'rotl', 'rotr', 'Neg', 'cat', 'c', 's', 'bx'}
+
+
+def unmodelled_ops(bits):
+    """operators without a bit-level meaning (CPU intrinsics that have no expansion in bitform.ISA, summarised callees)
+    among the atoms reachable from the given XOR-sets, through the inputs of position-wise functions"""
+    seen, out, stack = set(), set(), [a for b in bits for a in b if a]
+    while stack:
+        a = stack.pop()
+        if a in seen:
+            continue
+        seen.add(a)
+        d = bitform._atom_of[a]
+        if d[0] == 'pw':
+            for s_ in d[3]:
+                stack.extend(x for x in s_ if x and x not in seen)
+            continue
+        k = d[0][0]
+        if k not in _MIR_OPS and not k.startswith('pw:') and (_INTRINSIC.match(k) or k.split('#')[0] not in bitform.ISA):
+            out.add(k.split('#')[0])
+    return sorted(out)
+
+
 def describe_diff(code, spec):
     for i, (a, b) in enumerate(zip(code, spec)):
         if a is None:
@@ -295,9 +320,25 @@ def describe_diff(code, spec):
     return None
 
 
+def decide(chk, rule, key, code, ref, msg_bad, sample):
+    """compare normal forms; True = decided (ok or violation recorded), False = undecided because the code's normal form
+    contains an operator the engine has no bit-level meaning for (recorded under `undecided`, never a pass)"""
+    d = describe_diff(code, ref)
+    if not d:
+        chk.ok(rule, key, sample)
+        return True
+    um = unmodelled_ops([b for byte in code if byte is not None for b in byte])
+    if um:
+        chk.undecided.append('%s %s: the code uses %s, for which analysis/c02_hw.py has no bit-level expansion -- not decided' % (rule, key, ', '.join(um)))
+        return False
+    chk.violation(rule, key, msg_bad + ': ' + d)
+    return True
+
+
 def rule_F(chk, nm, F):
     m = F.mono
     n = 0
+    undec = [0]
     with equiv.TermMode():
         try:
             sb, verdict, detail = sbox_lemma(m)
@@ -361,19 +402,18 @@ def rule_F(chk, nm, F):
                     ref = []
                     for l in range(len(xs) // 16):
                         ref += (fips_cipher if enc else fips_inv_cipher)(xs[16 * l:16 * l + 16], rk, sb)
-                    n += 1
-                    d = describe_diff(code, ref)
-                    if d:
-                        chk.violation('F-fips-197', fkey, '%s (%s, %d-byte key): %s differs from the FIPS-197 %s%s: %s' % (
+                    if decide(chk, 'F-fips-197', fkey, code, ref, '%s (%s, %d-byte key): %s differs from the FIPS-197 %s%s' % (
                             sname, nm, len(ksyms), fn['name'], 'Cipher' if enc else 'InvCipher',
-                            '' if fn is single else ' applied to each of the %d blocks (byte index / 16 = lane)' % (len(xs) // 16), d))
+                            '' if fn is single else ' applied to each of the %d blocks (byte index / 16 = lane)' % (len(xs) // 16)),
+                            dict(backend=sname, key_bytes=len(ksyms), direction='encrypt' if enc else 'decrypt',
+                                 rounds=len(rk) - 1, config=nm, blocks=len(xs) // 16)):
+                        n += 1
                     else:
-                        chk.ok('F-fips-197', fkey, dict(backend=sname, key_bytes=len(ksyms), direction='encrypt' if enc else 'decrypt',
-                                                        rounds=len(rk) - 1, config=nm, blocks=len(xs) // 16))
+                        undec[0] += 1
         finally:
             T.BITCANON = False
             engine._INTERPS.clear()
-    return n
+    return None if undec[0] else n
 
 
 SOFT_CONFIGS = ('x64', 'x64-soft', 'x64-alt1', 'x86-soft-all', 'x86-alt1-all', 'a64-soft-all')
